@@ -3,10 +3,37 @@ package seqx
 // #include <stdlib.h>
 import "C"
 
-import "unsafe"
+import (
+	"sync"
+	"unsafe"
+)
 
-// cAlloc returns n bytes of zeroed memory from the C heap: the C-backed arrays are meant to wrap memory the Go
-// runtime does not manage (a caller's buffer), and the garbage collector must not be asked to interpret pointers into it.
-func cAlloc(n uintptr) unsafe.Pointer { return C.calloc(1, C.size_t(n)) }
+// The C-backed arrays are meant to wrap memory the Go runtime does not manage (a caller's buffer), and the garbage
+// collector must not be asked to interpret pointers into it: the buffers come from calloc. Views and sources outlive
+// the harness object that created the buffer, so nothing is freed by finalizers; the explorer frees everything
+// allocated so far at a point where no array of an earlier state is referenced any more (ReleaseC, once per state).
+var (
+	cmu    sync.Mutex
+	cblock []unsafe.Pointer
+)
 
-func cFree(p unsafe.Pointer) { C.free(p) }
+func cAlloc(n uintptr) unsafe.Pointer {
+	p := C.calloc(1, C.size_t(n))
+	if p == nil {
+		panic("seqx: calloc failed")
+	}
+	cmu.Lock()
+	cblock = append(cblock, p)
+	cmu.Unlock()
+	return p
+}
+
+// ReleaseC frees every buffer handed out by cAlloc so far.
+func ReleaseC() {
+	cmu.Lock()
+	for _, p := range cblock {
+		C.free(p)
+	}
+	cblock = cblock[:0]
+	cmu.Unlock()
+}
